@@ -18,5 +18,6 @@ rsync -a --exclude .git --exclude work --exclude replays --exclude evidence --ex
 cd "$VC" && VERIF_REPO="$WT" ./check "$PROP" --tier "$TIER"
 RC=$?
 echo "--- seedtest rc=$RC"
-if ls "$VC"/replays/* >/dev/null 2>&1; then mkdir -p /verif/work/seedtest; cp "$VC"/replays/* /verif/work/seedtest/ 2>/dev/null; echo "replays copied to /verif/work/seedtest/"; fi
+SEEDNAME=$(basename "$(dirname "$PATCH")")
+if ls "$VC"/replays/* >/dev/null 2>&1; then mkdir -p /verif/work/seedtest/"$SEEDNAME"; rm -f /verif/work/seedtest/"$SEEDNAME"/*.json; cp "$VC"/replays/* /verif/work/seedtest/"$SEEDNAME"/ 2>/dev/null; echo "replays copied to /verif/work/seedtest/$SEEDNAME/"; fi
 exit $RC
